@@ -31,7 +31,7 @@ RULE = ("one evaluation = one seeded history (<= 14 operations, <= 18 files in 3
         "separately, and compared with the model. non-trivial = >= 1 referrer produced and >= 1 comparison; distinct = distinct "
         "event-log digests")
 STATE_MEASURE = "distinct (producer, chain depth, mapping kind, feature kind, access kind / file-system situation) tuples"
-PROBES = ["child_closed_source_still_used", "two_referrers_read_traces_interleaved", "child_reexported_after_equal_count_reselection", "result_mutated_in_place", "result_read_only", "chain_depth_3", "chain_depth_4", "child_export", "child_export_of_basin_file", "basin_only_export", "export_with_stored",
+PROBES = ["access_repeated_after_transient_read_fault", "child_closed_source_still_used", "two_referrers_read_traces_interleaved", "child_reexported_after_equal_count_reselection", "result_mutated_in_place", "result_read_only", "chain_depth_3", "chain_depth_4", "child_export", "child_export_of_basin_file", "basin_only_export", "export_with_stored",
           "unfiltered_export", "box_filter", "map_superset", "map_permutation", "map_crosses_chunk", "two_basins", "two_basins_shared_map",
           "internal_basin", "explicit_mapname", "basin_feats_restricted", "precedence_checked", "moved_together",
           "moved_ref_only", "abs_location_still_resolves", "origin_deleted", "origin_renamed", "origin_replaced",
@@ -228,6 +228,8 @@ class World:
         self.fcount = 0
         self.pcount = 0
         self.reported = set()
+        from dst import faultfs
+        self.rseam = faultfs.ReadFaultSeam().install()
         self.scalar_chunk = max(10, int(trace["knobs"]["chunk_bytes"] // 8))
 
     # ------------------------------------------------------------------ helpers
@@ -262,8 +264,8 @@ class World:
         self.reported.add(key)
         self.ctx.violation(oracle, detail, sig=sig, fatal=False)
 
-    def guarded(self, oracle, sig, fn, allow_keyerror=False):
-        """call into dclab; returns (status, value): ok / keyerror / exc (reported)"""
+    def guarded(self, oracle, sig, fn, allow_keyerror=False, quiet=False):
+        """call into dclab; returns (status, value): ok / keyerror / exc (reported unless quiet)"""
         try:
             with warnings.catch_warnings():
                 warnings.simplefilter("ignore")
@@ -273,6 +275,8 @@ class World:
         except BaseException as e:
             if allow_keyerror and (isinstance(e, KeyError) or type(e).__name__ == "BasinNotAvailableError"):
                 return "keyerror", e
+            if quiet:
+                return "exc", e
             where = "?"
             for fs in reversed(traceback.extract_tb(e.__traceback__)):
                 if "/dclab/" in fs.filename:
@@ -444,7 +448,14 @@ class World:
         if x < 0.62:
             return {"k": "tool", "src": i, "tool": r.choice(["compress", "repack"])}
         if x < 0.82:
-            return {"k": "read", "src": i, "feat": r.choice(ALLF), "acc": r.choice(ACCESS), "aseed": r.randrange(1 << 30)}
+            op = {"k": "read", "src": i, "feat": r.choice(ALLF), "acc": r.choice(ACCESS), "aseed": r.randrange(1 << 30)}
+            if r.random() < 0.5:
+                # one read of a file fails (flaky disk / network file system, interrupt) inside a first attempt of this access;
+                # the caller repeats the access on the same dataset object
+                op["fail_first"] = {"at": r.choice([0, 0, 1, 1, 2, 3, 4, 6, 9, 14, 20, 30]), "kind": r.choice(["err", "err", "intr"]),
+                                    "only": r.choice([None, "basinmap", "/events/", "/events/", "ds.", "ds."]),
+                                    "from_end": r.choice([None, 0, 0, 0, 1, 1, 2, 3, 5])}
+            return op
         return {"k": "fs", "src": i, "what": r.choice(["move_together", "move_together", "move_ref", "delete", "rename", "replace"]),
                 "dir": r.randrange(NDIRS), "on_target": r.random() < 0.75}
 
@@ -1262,9 +1273,9 @@ class World:
                 except Exception:
                     other = None
         try:
-            def fetch():
-                obj = ds[f]
-                if other is not None:
+            def fetch(ds_=None):
+                obj = (ds if ds_ is None else ds_)[f]
+                if other is not None and ds_ is None:
                     try:
                         ot = other["trace"]
                         [ot[nm][0] for nm in TRACES if nm in ot]
@@ -1313,8 +1324,55 @@ class World:
                         out[nm] = np.asarray(o[index])
                 return out
 
+            fault_fired = False
+            ff = op.get("fail_first")
+            seam = getattr(self, "rseam", None)
+            if ff and seam is not None:
+                at_ = ff["at"]
+                if ff.get("from_end") is not None:
+                    # the fault points of this access are counted on another dataset object of the same file first
+                    try:
+                        with warnings.catch_warnings():
+                            warnings.simplefilter("ignore")
+                            import dclab
+                            ds0 = dclab.new_dataset(F.path)
+                            seam.arm(10 ** 9, "err", only=ff.get("only"))
+                            try:
+                                fetch(ds0)
+                            finally:
+                                seam.disarm()
+                                ds0.close()
+                        at_ = max(0, seam.points - 1 - int(ff["from_end"]))
+                    except (StopRun, SystemExit):
+                        raise
+                    except BaseException:  # noqa: B036
+                        at_ = ff["at"]
+                seam.arm(at_, ff["kind"], only=ff.get("only"))
+                first_exc = None
+                try:
+                    with warnings.catch_warnings():
+                        warnings.simplefilter("ignore")
+                        fetch()
+                except (StopRun, SystemExit):
+                    seam.disarm()
+                    raise
+                except BaseException as e_:  # noqa: B036 (KeyboardInterrupt is one of the injected kinds)
+                    first_exc = e_
+                fault_fired = seam.disarm()
+                ctx.log("r", f"first attempt {F.name} {f} {acc}", f"fired={fault_fired} raised={type(first_exc).__name__ if first_exc is not None else None}")
+                if fault_fired:
+                    ctx.fault("read_" + ff["kind"])
+                    ctx.probe("access_repeated_after_transient_read_fault")
+                    if first_exc is None:
+                        ctx.probe("transient_read_fault_swallowed")
+                    sig = dict(sig, after_failed_read=True)
             ctx.checked()
-            st, got = self.guarded("C07.read.exception." + fkind(f), sig, fetch, allow_keyerror=True)
+            st, got = self.guarded("C07.read.exception." + fkind(f), sig, fetch, allow_keyerror=True, quiet=fault_fired)
+            if fault_fired and st in ("exc", "keyerror"):
+                # after a failed read the repetition may fail, too (a basin that failed may be given up): never wrong data
+                ctx.probe("repetition_after_fault_failed")
+                ctx.log("r", f"read {F.name} {f} {acc} repetition failed")
+                return
             if st == "exc":
                 ctx.log("r", f"read {F.name} {f} {acc} exception")
                 return
